@@ -1,7 +1,7 @@
 (* C13 -- generated topology is independent of labelling, ordering and run history.
    Statements only; every proof is `exact <lemma>`; Print Assumptions under each. *)
 From Coq Require Import ZArith String List Bool Permutation.
-From PV Require Import Blocks Links C02_links C13_invariance C13_relabel.
+From PV Require Import Blocks Links C02_links C13_invariance C13_relabel Gen_parser C13_skel.
 Import ListNotations.
 Open Scope Z_scope.
 
@@ -37,3 +37,11 @@ Proof. exact ex_relabelled. Qed.
 
 Example C13_nonvacuous : isort [(3, "c"); (1, "a"); (2, "b")]%string = [(1, "a"); (2, "b"); (3, "c")]%string.
 Proof. exact ex_sort. Qed.
+
+(* (T) the .itp reader snapshots the blocks and links defined before its file; what it does at the end of the file (splitting
+   dangling interactions off, making edges) concerns the definitions of that file, so reading a.ff then b.itp and b.itp then
+   a.ff leave the definitions of a.ff the same (differential check: both orders through gen_params) *)
+Theorem C13_itp_reader_scope :
+  (parser_known_blocks = "dict(force_field.blocks)" /\ parser_known_links = "len(force_field.links)")%string.
+Proof. exact gen_parser_scope. Qed.
+Print Assumptions C13_itp_reader_scope.
